@@ -374,11 +374,12 @@ def Op.measureAllLen (nq : Nat) : Op → Bool
   | _ => false
 
 /-- Conservative prediction of a panic inside `execute`/`reexecute` with `shots` shots. -/
-def execAbortTag (nq : Nat) (ops : List Op) (shots : Nat) : Option String :=
+def execAbortTag (_nq : Nat) (ops : List Op) (shots : Nat) : Option String :=
   if ops.any (fun o => o.cbits.any (· ≥ 64)) then some "exec-cbit-ge-64"
   else if ops.any (fun o => match o with | .cond ctl _ _ _ => ctl.length ≥ 64 | _ => false) then some "exec-cond-controls-ge-64"
   else if ops.any Op.dupQubits then some "exec-dup-qubits"
-  else if ops.any (Op.measureAllLen nq) then some "exec-measure-all-len"
+  -- (a `measure_all`/`peek_all` list of the wrong length is an error result on both representations now:
+  -- finding C19-abort-exec-measure-all-len is fixed, no abort class for it)
   else if shots = 0 ∧ ops.any Op.touchesRegister then some "exec-zero-shots"
   else none
 
@@ -392,9 +393,9 @@ def qasmAbortTag (cq : Bool) (nq : Nat) (ops : List Op) : Option String :=
   else if cq ∧ ops.any (Op.condControlGe nq) then some "export-cqasm-cond-control-ge-nq"
   else none
 
-def latexAbortTag (nq : Nat) (ops : List Op) : Option String :=
+def latexAbortTag (_nq : Nat) (ops : List Op) : Option String :=
+  -- (`reset_all` on 0 qubits is drawn now: finding C19-abort-export-latex-reset-all-0q is fixed)
   if ops.any Op.dupQubits then some "export-latex-dup-qubits"
-  else if nq = 0 ∧ ops.contains .resetAll then some "export-latex-reset-all-0q"
   else none
 
 /-! ## calls and answers -/
